@@ -87,9 +87,11 @@ package connectconformance
 //@   modifies atomicI32, held, map[string]testOutcome
 //@   ensures !held[r.mu]
 //@   ensures @kept forall k string :: old(r.outcomes != nil && has(r.outcomes, k)) ==> has(r.outcomes, k)
+//@   ensures @verdicts forall k string :: atlock(has(r.outcomes, k)) ==> has(r.outcomes, k) && r.outcomes[k].actualFailure == atlock(r.outcomes[k].actualFailure) && r.outcomes[k].setupError == atlock(r.outcomes[k].setupError) //# outcomes already recorded when the sweep starts - whatever they are - keep their verdict
 //@   ensures forall i int :: 0 <= i && i < len(testCases) ==> has(r.outcomes, testCases[i].Request.TestName)
 //@   loop 0: invariant held[r.mu] && r.outcomes != nil
 //@           invariant forall k string :: atpre(r.outcomes != nil && has(r.outcomes, k)) ==> has(r.outcomes, k)
+//@           invariant forall k string :: atlock(has(r.outcomes, k)) ==> has(r.outcomes, k) && r.outcomes[k].actualFailure == atlock(r.outcomes[k].actualFailure) && r.outcomes[k].setupError == atlock(r.outcomes[k].setupError)
 //@           invariant forall i int :: 0 <= i && i <= rangeindex ==> has(r.outcomes, testCases[i].Request.TestName)
 
 // Peer feedback is merged before reporting: every case with feedback ends up with a
